@@ -20,6 +20,11 @@ type T2JOpts struct {
 	U8       bool `json:"u8"`
 	Nob64    bool `json:"nob64"`
 	Disallow bool `json:"disallow"`
+	Wreq     bool `json:"wreq"`
+	Wdef     bool `json:"wdef"`
+	Wopt     bool `json:"wopt"`
+	Optbm    bool `json:"optbm"`
+	Usedflt  bool `json:"usedflt"`
 }
 type T2JCase struct {
 	Desc *DescJ  `json:"desc,omitempty"`
@@ -75,7 +80,7 @@ func (c *c03) run(tc T2JCase) {
 	for _, native := range []bool{false, true} {
 		doc := append([]byte(nil), tc.B...)
 		ev := map[string]interface{}{"ev": "T2J", "t": tc.T, "b": B(doc), "i2s": tc.O.I2s, "u8": tc.O.U8, "nob64": tc.O.Nob64,
-			"disallow": tc.O.Disallow, "native": native, "d": jd("null"), "case": T2JCase{Desc: &c.cur, T: tc.T, B: tc.B, O: tc.O}}
+			"disallow": tc.O.Disallow, "wreq": tc.O.Wreq, "wdef": tc.O.Wdef, "wopt": tc.O.Wopt, "optbm": tc.O.Optbm, "native": native, "d": jd("null"), "case": T2JCase{Desc: &c.cur, T: tc.T, B: tc.B, O: tc.O}}
 		func() {
 			defer func() {
 				if e := recover(); e != nil {
@@ -83,7 +88,8 @@ func (c *c03) run(tc T2JCase) {
 				}
 			}()
 			cv := t2j.NewBinaryConv(conv.Options{Int642String: tc.O.I2s, ByteAsUint8: tc.O.U8, NoBase64Binary: tc.O.Nob64,
-				DisallowUnknownField: tc.O.Disallow, UseNativeSkip: native})
+				DisallowUnknownField: tc.O.Disallow, UseNativeSkip: native,
+				WriteRequireField: tc.O.Wreq, WriteDefaultField: tc.O.Wdef, WriteOptionalField: tc.O.Wopt})
 			out, err := cv.Do(context.Background(), c.root, doc)
 			if err != nil {
 				ev["st"] = "err"
@@ -312,7 +318,7 @@ func c03Main(args map[string]string) {
 				die("bad case: %v: %s", err, line)
 			}
 			if tc.Desc != nil {
-				c.setDesc(*tc.Desc, thrift.Options{})
+				c.setDesc(*tc.Desc, thrift.Options{SetOptionalBitmap: tc.O.Optbm, UseDefaultValue: tc.O.Usedflt})
 			}
 			if idx-1 < startAt || tc.B == nil {
 				return
